@@ -103,13 +103,17 @@ CheckRescore(D, docs, e, l, scn) ==
       dropsOk == \A id \in dropped : RqHasMin(e.rq) /\ (caps => RqMatches(id))
       absolute == e.absolute /\ caps /\ PlainScoring(rq)
       rs(id) == ScoreS(D, docs, Doc(id), rq)
+      \* a rescore query without any scorer for the hit (only must_not / filter / phrase clauses):
+      \* the property does not say whether its "score" is the constant 1 of a main query or
+      \* nothing at all (the code adds nothing), so such hits are not judged by the absolute oracle
+      Scored(id) == NodeVal(D, docs, Doc(id), rq) # EMPTY
       scoresOk ==
         \A id \in winIds \ dropped :
-           RqMatches(id) => Close(scIn(e.obs, id), CombineR(e.mode, scIn(e.base, id), rs(id)))
+           (RqMatches(id) /\ Scored(id)) => Close(scIn(e.obs, id), CombineR(e.mode, scIn(e.base, id), rs(id)))
       minOk ==
         RqHasMin(e.rq) =>
           \A id \in winIds :
-             (RqMatches(id) /\ ~Close(rs(id), e.rq.min)) => ((id \in dropped) <=> (rs(id) < e.rq.min))
+             (RqMatches(id) /\ Scored(id) /\ ~Close(rs(id), e.rq.min)) => ((id \in dropped) <=> (rs(id) < e.rq.min))
       smallApplies == e.small.has /\ e.small.obs.ok /\ e.window <= e.small.limit + 1 /\ dropped = {}
       smallOk == HitSeq(e.small.obs) = SubSeq(R, 1, MinI(e.small.limit, Len(R)))
   IN IF ~e.base.ok \/ ~e.obs.ok \/ (e.small.has /\ ~e.small.obs.ok)
